@@ -471,6 +471,86 @@ fn run_history(hseed: u64, nops: u64, pool_size: usize, compare_every: u64) -> H
     HistResult { ops: h.ops, cells: h.cells.clone(), fail, maxlen }
 }
 
+/// The server shares a sorted set between the command thread (which updates it) and the snapshot
+/// thread (which reads it through the list's own lock). Here: one writer re-scores members that
+/// exist from start to end, readers take snapshots all the while. Every snapshot must hold every
+/// member exactly once, in (score, member) order, and agree with len().
+fn concurrent_readers(rep: &mut Report, seed: u64, secs: f64) {
+    use std::sync::atomic::{AtomicBool, AtomicU64, Ordering};
+    use std::sync::{Arc, Mutex};
+    let n: usize = 48;
+    let list: Arc<SkipList<Vec<u8>, f64>> = Arc::new(SkipList::new());
+    let names: Vec<Vec<u8>> = (0..n).map(|i| format!("m{:03}", i).into_bytes()).collect();
+    for (i, m) in names.iter().enumerate() {
+        list.insert(m.clone(), (i % 7) as f64);
+    }
+    let stop = Arc::new(AtomicBool::new(false));
+    let snapshots = Arc::new(AtomicU64::new(0));
+    let problems: Arc<Mutex<Vec<(String, String)>>> = Arc::new(Mutex::new(Vec::new()));
+    let mut readers = Vec::new();
+    for r in 0..3u64 {
+        let (list, stop, snapshots, problems) = (list.clone(), stop.clone(), snapshots.clone(), problems.clone());
+        readers.push(std::thread::spawn(move || {
+            while !stop.load(Ordering::Relaxed) {
+                let items = if r == 2 { list.range_by_rank(0, usize::MAX - 1).items } else { list.get_all_items() };
+                snapshots.fetch_add(1, Ordering::Relaxed);
+                let mut seen: Vec<&Vec<u8>> = items.iter().map(|(m, _)| m).collect();
+                seen.sort();
+                seen.dedup();
+                let sorted = items.windows(2).all(|w| item_cmp(&w[0], &w[1]) == std::cmp::Ordering::Less);
+                let problem = if items.len() != n || seen.len() != n {
+                    Some(("member-missing-or-twice", format!("a snapshot taken while members were only re-scored holds {} entries, {} distinct members (the set has {} members throughout): {}",
+                        items.len(), seen.len(), n, show_items(&items[..items.len().min(12)]))))
+                } else if !sorted {
+                    Some(("snapshot-unsorted", format!("a snapshot taken during re-scoring is not in (score, member) order: {}", show_items(&items[..items.len().min(12)]))))
+                } else {
+                    None
+                };
+                if let Some((sig, detail)) = problem {
+                    let mut p = problems.lock().unwrap();
+                    if p.len() < 4 {
+                        p.push((sig.to_string(), detail));
+                    }
+                }
+            }
+        }));
+    }
+    let mut rng = Rng::new(mix(seed, 77, 0));
+    let budget = Budget::new(secs);
+    let mut updates = 0u64;
+    while !budget.over() {
+        for _ in 0..256 {
+            let m = &names[rng.usize_below(n)];
+            let sc = match rng.below(4) {
+                0 => GRID[rng.usize_below(GRID.len())],
+                1 => (rng.below(7)) as f64,
+                2 => list.get_score(m).unwrap_or(0.0),
+                _ => rng.below(1000) as f64 / 8.0,
+            };
+            list.insert(m.clone(), sc);
+            updates += 1;
+        }
+    }
+    stop.store(true, Ordering::Relaxed);
+    for r in readers {
+        let _ = r.join();
+    }
+    rep.evaluations += updates;
+    rep.cell("concurrent/re-score-vs-snapshots");
+    rep.extra_num("concurrent_updates", updates);
+    rep.extra_num("concurrent_snapshots", snapshots.load(Ordering::Relaxed));
+    for (sig, detail) in problems.lock().unwrap().iter() {
+        rep.violation(format!("concurrent/{}", sig), detail.clone(), format!("concurrent:{}", seed));
+    }
+    if snapshots.load(Ordering::Relaxed) < 100 {
+        rep.inconclusive("concurrent readers took fewer than 100 snapshots");
+    }
+    let inv = list.verif_check_invariants();
+    if !inv.is_empty() {
+        rep.violation("concurrent/invariant", inv.join("; "), format!("concurrent:{}", seed));
+    }
+}
+
 fn absorb(rep: &mut Report, r: HistResult, replay: String, kind: &str) {
     rep.evaluations += r.ops;
     for c in &r.cells {
@@ -588,6 +668,7 @@ fn main() {
         histories += 1;
         i += 1;
     }
+    concurrent_readers(&mut rep, args.seed, if args.tier == Tier::Thorough { 6.0 } else { 1.5 });
     rep.sample(format!("short history shape #0: seed/ops/pool/compare-every = {:?}", shape(args.seed, 0)));
     rep.extra_num("short_histories", histories);
     rep.extra_num("long_histories", long_histories);
